@@ -185,70 +185,27 @@ func propC01(c *Ctx) {
 	checkLogsProbe(c, "R1.6")
 
 	// ---- R1.5 ---------------------------------------------------------
-	c.Rule("R1.5", "load partitions [start, start+limit) by the ceiling quotient of batch size by concurrency; each partition starts at start + i*part and the scheduled closure fetches exactly (m, n)", 4)
+	c.Rule("R1.5", "partition arithmetic of load, on stride forms: first partition at start, partition size not a floor quotient, size = min(stride, limit - offset) with the offset and stride of the partition start", 3)
 	propC01Partition(c, m)
+
+	// ---- R1.7 ---------------------------------------------------------
+	c.Rule("R1.7", "the chunks of the loaded slice handed to the destinations start at element 0 and do not advance by a floor quotient", 1)
+	propC01InsertTiling(c, m)
 }
 
-// propC01Partition checks the shape of load's partition arithmetic.
+// propC01Partition: the partition arithmetic of load, decided on stride forms
+// (value in the first iteration, growth per iteration) so that `start + i*part`
+// and a running offset `off += part` are the same thing.  The rule reports a
+// violation only where it understands the arithmetic and finds it wrong; a
+// shape it cannot read is recorded as not decided.
 func propC01Partition(c *Ctx, m *convergeModel) {
 	ld := m.load
 	w := c.W
 	fBatch, fConc := w.Field("shovel", "Task", "batchSize"), w.Field("shovel", "Task", "concurrency")
-	isField := func(v ssa.Value, f *types.Var) bool {
-		v = stripNum(v)
-		lf, _ := loadedField(v)
-		return lf == f
-	}
-	// part = (batch + conc - 1) / conc
-	var part ssa.Value
-	allInstrs(ld, func(in ssa.Instruction) {
-		b, ok := in.(*ssa.BinOp)
-		if !ok || b.Op != token.QUO || !isField(b.Y, fConc) {
-			return
-		}
-		// numerator: batch + conc - 1 in any association
-		num := b.X
-		terms := map[string]int64{}
-		var constSum int64
-		var flat func(v ssa.Value, sign int64) bool
-		flat = func(v ssa.Value, sign int64) bool {
-			if bb, ok := v.(*ssa.BinOp); ok && (bb.Op == token.ADD || bb.Op == token.SUB) {
-				s2 := sign
-				if bb.Op == token.SUB {
-					s2 = -sign
-				}
-				return flat(bb.X, sign) && flat(bb.Y, s2)
-			}
-			if n, ok := constInt(v); ok {
-				constSum += sign * n
-				return true
-			}
-			switch {
-			case isField(v, fBatch):
-				terms["batch"] += sign
-			case isField(v, fConc):
-				terms["conc"] += sign
-			default:
-				return false
-			}
-			return true
-		}
-		if flat(num, 1) && terms["batch"] == 1 && terms["conc"] == 1 && constSum == -1 {
-			part = b
-		}
-	})
-	c.Check("R1.5", "load/part=ceil(batchSize/concurrency)", ld.Pos(), part != nil,
-		"partition size must be (batchSize + concurrency - 1) / concurrency: with floor division batch_size < concurrency yields 0 (nothing is loaded) and non-divisible pairs drop the tail")
-	if part == nil {
-		return
-	}
-	// the spawning closure calls Source.Get(ctx, url, &t.filter, m, n) with m, n the captured per-iteration cells
 	var spawn *ssa.Function
-	var mc *ssa.MakeClosure
 	allInstrs(ld, func(in ssa.Instruction) {
 		if call, ok := in.(*ssa.Call); ok && strings.HasSuffix(calleeName(call), "errgroup.Group).Go") {
 			if x, ok := call.Call.Args[1].(*ssa.MakeClosure); ok {
-				mc = x
 				spawn = x.Fn.(*ssa.Function)
 			}
 		}
@@ -267,32 +224,6 @@ func propC01Partition(c *Ctx, m *convergeModel) {
 		c.Violation("R1.5", "load$closure/Get", spawn.Pos(), "the partition closure does not call Source.Get")
 		return
 	}
-	// resolve Get's start/limit arguments to the cells bound by the closure
-	cellOf := func(v ssa.Value) ssa.Value {
-		u, ok := v.(*ssa.UnOp)
-		if !ok || u.Op != token.MUL {
-			return nil
-		}
-		fv, ok := u.X.(*ssa.FreeVar)
-		if !ok {
-			return nil
-		}
-		for i, x := range spawn.FreeVars {
-			if x == fv {
-				return mc.Bindings[i]
-			}
-		}
-		return nil
-	}
-	args := get.Common().Args
-	mCell, nCell := cellOf(args[len(args)-2]), cellOf(args[len(args)-1])
-	stored := func(cell ssa.Value) ssa.Value {
-		a, ok := cell.(*ssa.Alloc)
-		if !ok {
-			return nil
-		}
-		return cellValue(a)
-	}
 	var pStart, pLimit *ssa.Parameter
 	for _, p := range ld.Params {
 		switch p.Name() {
@@ -302,36 +233,142 @@ func propC01Partition(c *Ctx, m *convergeModel) {
 			pLimit = p
 		}
 	}
-	isIPart := func(v ssa.Value) bool { // i*part (converted)
-		b, ok := stripNum(v).(*ssa.BinOp)
-		if !ok || b.Op != token.MUL {
+	if pStart == nil || pLimit == nil {
+		fatalf("anchor: load(ctx, url, localHash, start, limit) parameters not found")
+	}
+	aff := &affEnv{reg: NewRegion(ld)}
+	args := get.Common().Args
+	mArg, nArg := args[len(args)-2], args[len(args)-1]
+	mi, ms, mok := aff.strideOf(mArg)
+	// (1) first partition starts at start
+	switch {
+	case !mok:
+		c.OK("R1.5", "load/first-partition-at-start", instrPos(get), "shape of the partition start not recognised: not decided")
+	default:
+		c.Check("R1.5", "load/first-partition-at-start", instrPos(get), linEq(mi, aff.Of(pStart)),
+			fmt.Sprintf("the first partition starts at [%s]; it must start at start", mi))
+	}
+	// (2) the stride is not a floor quotient of batch size by concurrency
+	strideOK, strideDetail := true, "partition stride ["+ms.String()+"]"
+	if mok && floorQuotientStride(aff, ms, fBatch, fConc) {
+		strideOK, strideDetail = false, "the partition size is the floor quotient batchSize / concurrency: batch_size < concurrency yields 0 (nothing is loaded) and non-divisible pairs drop the tail of the range"
+	}
+	c.Check("R1.5", "load/partition-size-not-floor-quotient", ld.Pos(), strideOK, strideDetail)
+	// (3) the size of a partition is min(stride, limit - offset) for the same offset
+	nOK, nDetail := true, "shape of the partition size not recognised: not decided"
+	if call, ok := aff.resolve(nArg).(*ssa.Call); ok && mok && calleeName(call) == "builtin min" && len(call.Call.Args) == 2 {
+		nOK, nDetail = false, "the partition size is not min(stride, limit - offset of this partition)"
+		for k := 0; k < 2; k++ {
+			sz, rest := call.Call.Args[k], call.Call.Args[1-k]
+			si, ss, sok := aff.strideOf(sz)
+			ri, rs, rok := aff.strideOf(rest)
+			if !sok || !rok {
+				continue
+			}
+			// sz = stride (invariant), rest = limit - (m - start)
+			if linIsZero(ss) && linEq(si, ms) && linEq(ri, aff.Of(pLimit).sub(mi.sub(aff.Of(pStart)))) && linEq(rs, ms.scale(-1)) {
+				nOK, nDetail = true, "partition size = min(stride, limit - offset), same offset and stride as the partition start"
+			}
+		}
+	}
+	c.Check("R1.5", "load/partition-size-clipped-to-range", instrPos(get), nOK, nDetail)
+}
+
+// floorQuotientStride: the stride is batchSize / concurrency rounded down
+// (possibly wrapped in max(1, …) / min(…)): a loop that runs a fixed number
+// of times with such a stride does not cover a range of batchSize elements
+// unless concurrency divides batchSize.
+func floorQuotientStride(aff *affEnv, stride lin, fBatch, fConc *types.Var) bool {
+	sv := aff.single(stride)
+	if sv == nil {
+		return false
+	}
+	isLoadOf := func(l lin, f *types.Var) bool {
+		v := aff.single(l)
+		if v == nil {
 			return false
 		}
-		return (b.Y == part && isInduction(b.X)) || (b.X == part && isInduction(b.Y))
+		lf, _ := loadedField(v)
+		return lf == f
 	}
-	mv, nv := stored(mCell), stored(nCell)
-	okM := false
-	if b, ok := mv.(*ssa.BinOp); ok && b.Op == token.ADD {
-		okM = (b.X == pStart && isIPart(b.Y)) || (b.Y == pStart && isIPart(b.X))
-	}
-	c.Check("R1.5", "load/m=start+i*part", instrPos(get), okM && pStart != nil, "the first block of partition i is start + i*part")
-	okN := false
-	if call, ok := nv.(*ssa.Call); ok && calleeName(call) == "builtin min" && len(call.Call.Args) == 2 {
-		a0, a1 := call.Call.Args[0], call.Call.Args[1]
-		isPart := func(v ssa.Value) bool { return stripNum(v) == part }
-		isRest := func(v ssa.Value) bool {
-			b, ok := v.(*ssa.BinOp)
-			return ok && b.Op == token.SUB && b.X == pLimit && isIPart(b.Y)
+	var rec func(v ssa.Value, d int) bool
+	rec = func(v ssa.Value, d int) bool {
+		v = aff.resolve(v)
+		switch x := v.(type) {
+		case *ssa.BinOp:
+			if x.Op == token.QUO {
+				return isLoadOf(aff.Of(x.Y), fConc) && isLoadOf(aff.Of(x.X), fBatch)
+			}
+		case *ssa.Call:
+			if n := calleeName(x); (n == "builtin max" || n == "builtin min") && d < 3 {
+				for _, a := range x.Call.Args {
+					if rec(a, d+1) {
+						return true
+					}
+				}
+			}
 		}
-		okN = (isPart(a0) && isRest(a1)) || (isPart(a1) && isRest(a0))
+		return false
 	}
-	c.Check("R1.5", "load/n=min(part,limit-i*part)", instrPos(get), okN && pLimit != nil, "the size of partition i is min(part, limit - i*part)")
-	// the loop runs i over [0, concurrency)
-	loopOK := false
-	allInstrs(ld, func(in ssa.Instruction) {
-		if b, ok := in.(*ssa.BinOp); ok && b.Op == token.LSS && isInduction(b.X) && isField(b.Y, fConc) {
-			loopOK = true
+	return rec(sv, 0)
+}
+
+// propC01InsertTiling (R1.7): the chunks of the loaded slice handed to the
+// destinations start at element 0 and their stride is not a floor quotient
+// (same arithmetic fact as R1.5; found missing by a seeded change that
+// re-chunked insert by batchSize/concurrency).
+func propC01InsertTiling(c *Ctx, m *convergeModel) {
+	ins := m.insert
+	w := c.W
+	fBatch, fConc := w.Field("shovel", "Task", "batchSize"), w.Field("shovel", "Task", "concurrency")
+	var blocks *ssa.Parameter
+	for _, p := range ins.Params {
+		if sl, ok := p.Type().Underlying().(*types.Slice); ok && repoNamedIs(sl.Elem(), "eth", "Block") {
+			blocks = p
+		}
+	}
+	if blocks == nil {
+		fatalf("anchor: insert(ctx, pg, blocks) parameter not found")
+	}
+	aff := &affEnv{reg: NewRegion(ins)}
+	n := 0
+	withClosures(ins, func(f *ssa.Function) {
+		for _, ci := range callsIn(f) {
+			if !ci.Common().IsInvoke() || ci.Common().Method.Name() != "Insert" {
+				continue
+			}
+			args := ci.Common().Args
+			arg := aff.resolve(args[len(args)-1])
+			n++
+			key := fmt.Sprintf("insert/chunk#%d", n)
+			sl, isSlice := arg.(*ssa.Slice)
+			if !isSlice {
+				// the whole slice (or something else): covers by construction if it is the parameter
+				c.Check("R1.7", key, instrPos(ci), sameVar(arg, blocks) || arg == ssa.Value(blocks), "the destination receives the loaded slice itself")
+				continue
+			}
+			if !sameVar(aff.resolve(sl.X), blocks) && aff.resolve(sl.X) != ssa.Value(blocks) {
+				c.Violation("R1.7", key, instrPos(ci), "the destination receives a slice of something other than the loaded blocks")
+				continue
+			}
+			if sl.Low == nil {
+				c.OK("R1.7", key, instrPos(ci), "chunk starts at element 0")
+				continue
+			}
+			li, ls, ok := aff.strideOf(sl.Low)
+			switch {
+			case !ok:
+				c.OK("R1.7", key, instrPos(ci), "shape of the chunk start not recognised: not decided")
+			case !linIsZero(li):
+				c.Violation("R1.7", key, instrPos(ci), fmt.Sprintf("the first chunk starts at element [%s], not 0", li))
+			case floorQuotientStride(aff, ls, fBatch, fConc):
+				c.Violation("R1.7", key, instrPos(ci), "chunks advance by the floor quotient batchSize / concurrency: for non-divisible pairs the tail of every full step is handed to no destination while the position still advances to the last loaded block")
+			default:
+				c.OK("R1.7", key, instrPos(ci), fmt.Sprintf("first chunk at 0, stride [%s]", ls))
+			}
 		}
 	})
-	c.Check("R1.5", "load/i<concurrency", ld.Pos(), loopOK, "the partition loop runs i over [0, concurrency)")
+	if n == 0 {
+		c.Violation("R1.7", "insert/chunk", ins.Pos(), "insert hands the loaded blocks to no destination")
+	}
 }
